@@ -13,7 +13,7 @@ from .common import (BUILD, COQ, COQ_FLAGS, EVIDENCE, GEN, REPLAYS, REPO, VERIF,
                      CheckError, DERIVE_FALLBACK, build_harness, coq_make, coqc, dump_tables, file_hash, log, sh,
                      write_real_v)
 from .gen import CodecInfo
-from .vm import (SD, OPS, coq_mismatches_multi, op_repr, parse_output, run_rust, script_text,
+from .vm import (SD, OPS, coq_mismatches_multi, op_repr, panic_messages, parse_output, run_rust, script_text,
                  script_coq)
 
 FORBIDDEN = re.compile(
@@ -359,6 +359,7 @@ def correspondence(ctx, spec):
              "script": [op_repr(o) for o in small], "script_text": script_text(small),
              "script_coq": script_coq(small),
              "implementation_output": o2, "model_output": mod2,
+             "implementation_panic_messages": panic_messages(g["codec"], g["profile"], small, g["tag"]),
              "first_differing_observation": first_diff(o2, mod2) if mod2 else k,
              "mismatching_cases_in_group": len(mis), "cases_in_group": len(g["scripts"])}, True)
 
